@@ -1,5 +1,5 @@
 (* C03S — source tie by translation for the element-wise scalar kernels.
-   Statements only (proofs: Proofs/ChainP.v).  Model/Chains.v is REGENERATED from /repo's Go sources
+   Statements only (proofs: Proofs/Chain*P.v).  Model/Chains.v is REGENERATED from /repo's Go sources
    on every run by the translator harness/chainx (go/ast): the 22 function literals tensor/internal/cputensor/operators.go hands to the element-wise traversals, and the formula of Equals.
    Each theorem interprets the generated expression over an ARBITRARY scalar type (Model/ChainIR.v:
    evx / evr) and states that it IS the scalar function the model applies — operand order, constants,
@@ -9,125 +9,130 @@
 From Coq Require Import String List ZArith Bool.
 From Qeep Require Import Model.Scalar Model.Nd Model.Data Model.ChainIR.
 From Qeep Require Model.Chains.
-From Qeep Require Import Proofs.ChainP.
+From Qeep Require Import Proofs.WiringP Proofs.ChainBaseP Proofs.ChainKernP.
 Import ListNotations.
 Local Open Scope string_scope.
 
 Theorem scale_kernel_is_the_models_scalar_function :
   forall (A : Type) (SA : Scalar A) (u : A),
   unary_kernel Chains.k_scale "scale" [("u", u)] (unaryF (UScale u)).
-Proof. exact @ChainP.k_scale_ok. Qed.
+Proof. exact @ChainKernP.k_scale_ok. Qed.
 Print Assumptions scale_kernel_is_the_models_scalar_function.
 
 Theorem pow_kernel_is_the_models_scalar_function :
   forall (A : Type) (SA : Scalar A) (u : A),
   unary_kernel Chains.k_pow "pow" [("u", u)] (unaryF (UPow u)).
-Proof. exact @ChainP.k_pow_ok. Qed.
+Proof. exact @ChainKernP.k_pow_ok. Qed.
 Print Assumptions pow_kernel_is_the_models_scalar_function.
 
 Theorem exp_kernel_is_the_models_scalar_function :
   forall (A : Type) (SA : Scalar A), unary_kernel Chains.k_exp "exp" [] (unaryF UExpo).
-Proof. exact @ChainP.k_exp_ok. Qed.
+Proof. exact @ChainKernP.k_exp_ok. Qed.
 Print Assumptions exp_kernel_is_the_models_scalar_function.
 
 Theorem log_kernel_is_the_models_scalar_function :
   forall (A : Type) (SA : Scalar A), unary_kernel Chains.k_log "log" [] (unaryF ULn).
-Proof. exact @ChainP.k_log_ok. Qed.
+Proof. exact @ChainKernP.k_log_ok. Qed.
 Print Assumptions log_kernel_is_the_models_scalar_function.
 
 Theorem sin_kernel_is_the_models_scalar_function :
   forall (A : Type) (SA : Scalar A), unary_kernel Chains.k_sin "sin" [] (unaryF USine).
-Proof. exact @ChainP.k_sin_ok. Qed.
+Proof. exact @ChainKernP.k_sin_ok. Qed.
 Print Assumptions sin_kernel_is_the_models_scalar_function.
 
 Theorem cos_kernel_is_the_models_scalar_function :
   forall (A : Type) (SA : Scalar A), unary_kernel Chains.k_cos "cos" [] (unaryF UCosine).
-Proof. exact @ChainP.k_cos_ok. Qed.
+Proof. exact @ChainKernP.k_cos_ok. Qed.
 Print Assumptions cos_kernel_is_the_models_scalar_function.
 
 Theorem tan_kernel_is_the_models_scalar_function :
   forall (A : Type) (SA : Scalar A), unary_kernel Chains.k_tan "tan" [] (unaryF UTang).
-Proof. exact @ChainP.k_tan_ok. Qed.
+Proof. exact @ChainKernP.k_tan_ok. Qed.
 Print Assumptions tan_kernel_is_the_models_scalar_function.
 
 Theorem sinh_kernel_is_the_models_scalar_function :
   forall (A : Type) (SA : Scalar A), unary_kernel Chains.k_sinh "sinh" [] (unaryF USinH).
-Proof. exact @ChainP.k_sinh_ok. Qed.
+Proof. exact @ChainKernP.k_sinh_ok. Qed.
 Print Assumptions sinh_kernel_is_the_models_scalar_function.
 
 Theorem cosh_kernel_is_the_models_scalar_function :
   forall (A : Type) (SA : Scalar A), unary_kernel Chains.k_cosh "cosh" [] (unaryF UCosH).
-Proof. exact @ChainP.k_cosh_ok. Qed.
+Proof. exact @ChainKernP.k_cosh_ok. Qed.
 Print Assumptions cosh_kernel_is_the_models_scalar_function.
 
 Theorem tanh_kernel_is_the_models_scalar_function :
   forall (A : Type) (SA : Scalar A), unary_kernel Chains.k_tanh "tanh" [] (unaryF UTanH).
-Proof. exact @ChainP.k_tanh_ok. Qed.
+Proof. exact @ChainKernP.k_tanh_ok. Qed.
 Print Assumptions tanh_kernel_is_the_models_scalar_function.
 
 Theorem eq_kernel_is_the_models_scalar_function :
   forall (A : Type) (SA : Scalar A), binary_kernel Chains.k_eq "eq" (binaryF BiEq).
-Proof. exact @ChainP.k_eq_ok. Qed.
+Proof. exact @ChainKernP.k_eq_ok. Qed.
 Print Assumptions eq_kernel_is_the_models_scalar_function.
 
 Theorem ne_kernel_is_the_models_scalar_function :
   forall (A : Type) (SA : Scalar A), binary_kernel Chains.k_ne "ne" (binaryF BiNe).
-Proof. exact @ChainP.k_ne_ok. Qed.
+Proof. exact @ChainKernP.k_ne_ok. Qed.
 Print Assumptions ne_kernel_is_the_models_scalar_function.
 
 Theorem gt_kernel_is_the_models_scalar_function :
   forall (A : Type) (SA : Scalar A), binary_kernel Chains.k_gt "gt" (binaryF BiGt).
-Proof. exact @ChainP.k_gt_ok. Qed.
+Proof. exact @ChainKernP.k_gt_ok. Qed.
 Print Assumptions gt_kernel_is_the_models_scalar_function.
 
 Theorem ge_kernel_is_the_models_scalar_function :
   forall (A : Type) (SA : Scalar A), binary_kernel Chains.k_ge "ge" (binaryF BiGe).
-Proof. exact @ChainP.k_ge_ok. Qed.
+Proof. exact @ChainKernP.k_ge_ok. Qed.
 Print Assumptions ge_kernel_is_the_models_scalar_function.
 
 Theorem lt_kernel_is_the_models_scalar_function :
   forall (A : Type) (SA : Scalar A), binary_kernel Chains.k_lt "lt" (binaryF BiLt).
-Proof. exact @ChainP.k_lt_ok. Qed.
+Proof. exact @ChainKernP.k_lt_ok. Qed.
 Print Assumptions lt_kernel_is_the_models_scalar_function.
 
 Theorem le_kernel_is_the_models_scalar_function :
   forall (A : Type) (SA : Scalar A), binary_kernel Chains.k_le "le" (binaryF BiLe).
-Proof. exact @ChainP.k_le_ok. Qed.
+Proof. exact @ChainKernP.k_le_ok. Qed.
 Print Assumptions le_kernel_is_the_models_scalar_function.
 
 Theorem elmax_kernel_is_the_models_scalar_function :
   forall (A : Type) (SA : Scalar A), binary_kernel Chains.k_elmax "elmax" (binaryF BiElMax).
-Proof. exact @ChainP.k_elmax_ok. Qed.
+Proof. exact @ChainKernP.k_elmax_ok. Qed.
 Print Assumptions elmax_kernel_is_the_models_scalar_function.
 
 Theorem elmin_kernel_is_the_models_scalar_function :
   forall (A : Type) (SA : Scalar A), binary_kernel Chains.k_elmin "elmin" (binaryF BiElMin).
-Proof. exact @ChainP.k_elmin_ok. Qed.
+Proof. exact @ChainKernP.k_elmin_ok. Qed.
 Print Assumptions elmin_kernel_is_the_models_scalar_function.
 
 Theorem add_kernel_is_the_models_scalar_function :
   forall (A : Type) (SA : Scalar A), binary_kernel Chains.k_add "add" (binaryF BiAdd).
-Proof. exact @ChainP.k_add_ok. Qed.
+Proof. exact @ChainKernP.k_add_ok. Qed.
 Print Assumptions add_kernel_is_the_models_scalar_function.
 
 Theorem sub_kernel_is_the_models_scalar_function :
   forall (A : Type) (SA : Scalar A), binary_kernel Chains.k_sub "sub" (binaryF BiSub).
-Proof. exact @ChainP.k_sub_ok. Qed.
+Proof. exact @ChainKernP.k_sub_ok. Qed.
 Print Assumptions sub_kernel_is_the_models_scalar_function.
 
 Theorem mul_kernel_is_the_models_scalar_function :
   forall (A : Type) (SA : Scalar A), binary_kernel Chains.k_mul "mul" (binaryF BiMul).
-Proof. exact @ChainP.k_mul_ok. Qed.
+Proof. exact @ChainKernP.k_mul_ok. Qed.
 Print Assumptions mul_kernel_is_the_models_scalar_function.
 
 Theorem div_kernel_is_the_models_scalar_function :
   forall (A : Type) (SA : Scalar A), binary_kernel Chains.k_div "div" (binaryF BiDiv).
-Proof. exact @ChainP.k_div_ok. Qed.
+Proof. exact @ChainKernP.k_div_ok. Qed.
 Print Assumptions div_kernel_is_the_models_scalar_function.
 
 Theorem equals_kernel_is_the_models_scalar_function :
   kf_body Chains.k_equals =
   XLet "o" (XCall1 "t.eq" (XV "u"))
     (XLet "n" (XCall0 "o.numElems") (XCmp ">=" (XCall0 "o.sum") (XCall1 "float64" (XV "n")))).
-Proof. exact @ChainP.k_equals_ok. Qed.
+Proof. exact @ChainKernP.k_equals_ok. Qed.
 Print Assumptions equals_kernel_is_the_models_scalar_function.
+
+Theorem method_layer_of_elementwise_ops_is_as_modelled :
+  same_wiring elementwise_methods.
+Proof. exact @WiringP.wiring_elementwise. Qed.
+Print Assumptions method_layer_of_elementwise_ops_is_as_modelled.
